@@ -10,7 +10,7 @@ from concurrent.futures import ThreadPoolExecutor
 from . import core
 from .core import cstr, cbool, clist
 
-IMPORTS = ("Require Import Hdl21.Base.PyInt Hdl21.Model.ParamName Hdl21.Model.GenCache Hdl21.Corr.C03 Hdl21.Corr.C09.\n"
+IMPORTS = ("Require Import Hdl21.Base.PyInt Hdl21.Model.ParamName Hdl21.Model.GenCache Hdl21.Model.GenUniverse Hdl21.Corr.C03 Hdl21.Corr.C09.\n"
            "From Coq Require Import String.\nOpen Scope string_scope.")
 
 
